@@ -25,7 +25,7 @@ BACKENDS = ["atlas", "cms_aod", "cms_miniaod"]
 TRUSTED = [
     "Coq 8.16.1 kernel (coqc); vm_compute only in the non-vacuity Examples",
     "C++-subset semantics coq/Cpp/Exec.v and IR printer coq/Cpp/IR.v (models of the emitted C++; validated by the re-print check on every program and, in C02's thorough tier, by g++ on the same text)",
-    "fragment translator coq/Model/FragTranslate.v: tied to ast_to_cpp_translator.py by text equality of whole emitted programs on generated fragment queries",
+    "fragment translator coq/Model/FragTranslate.v + coq/Model/FragQuery.v (rows; event filter, Select/SelectMany, whole jobs): tied to ast_to_cpp_translator.py by text equality of whole emitted programs on generated fragment queries",
     "reference semantics: Coq `de` for the fragment (compared with Python evaluation of the query source on every run); Python LINQ runtime tools/fv/qgen.py for the differential search",
     "emitted-code parser tools/fv/cxx.py (fail-closed, every parse is re-printed by the extracted Coq printer and compared with the emitted lines)",
     "func_adl 3.5.0 normalisations (third party) are inside the implementation run and outside the fragment model",
@@ -33,7 +33,8 @@ TRUSTED = [
 ]
 ASSUME = [
     "C01_fragment_rows hypotheses: collection names do not end in a digit and do not start with '_' (bases_ok); the column member is declared with the column's type",
-    "fragment: at most one Where per Count (func_adl fuses chained Where into `and`, which is outside F0)",
+    "fragment: at most one Where per Count (func_adl fuses chained Where into `and`, which is outside F1)",
+    "C01_query_job hypotheses: query_ok (the same name conditions), member names pairwise distinct, no event on which the reference semantics is stuck (a bank holding a non-collection, a condition on an uninterpreted value)",
 ]
 
 # query classes with a recorded genuine defect (DESIGN.md section 8); each template reproduces its class
@@ -179,6 +180,53 @@ def check(tier: str, seed: int, t0: float, build: core.BuildStatus) -> int:
                     oc.traces_validated_against_impl += 1
                     if len(samples) < 3:
                         samples.append({"kind": "fragment", "backend": be, "query": src, "events": len(evs), "program_lines": len(c.qlines)})
+        # ---------------- fragment F1: event filter, Select / SelectMany (whole queries) ----------------
+        for be in ("atlas", "cms_aod"):
+            uni = qgen.Universe(be)
+            idiom, tree, fill, _ = fraggen.BACKENDS[be]
+            for _ in range(n_frag):
+                src, sx, uses, kind = fraggen.gen_query_f1(rng, uni, rng.choice([0, 1, 2]))
+                n0 = cv.unique_var_index
+                c = semrun.translate(be, src, None, model)
+                oc.evaluations += 1
+                hist[f"f1:{kind}:{'filter' if sx[0] else 'nofilter'}:" + c.status] += 1
+                if c.status != "ok":
+                    oc.violations.append(core.Violation(
+                        key="c01:fragment-" + c.status,
+                        what=f"{be}: fragment query not translated ({c.error or c.note}): {src}",
+                        replay={"kind": "fragment", "backend": be, "query": src, "status": c.status, "detail": str(c.error or c.note)}))
+                    continue
+                r = model.call("c01.fragq", [idiom, tree, fill, sx, n0])
+                members = [ln.strip() for ln in c.pkg["slots"]["class_decl"]]
+                same = r[0] == "ok" and r[1] == c.qlines and r[2] == members and r[3] == [f"{a}={b}" for a, b in c.prog[2]]
+                distinct.add((be, src))
+                evs = frag_events(rng, uni, uses, n_events)
+                diffs, unsup = semrun.differential(model, c, uni, evs)
+                ref_bad = None
+                for ev in evs:
+                    dr = model.call("c01.denote_q", [sx, qgen.event_wire(ev)])
+                    pr = qgen.reference_event(src, ev, uni)
+                    if dr[0] == "ok" and pr[0] == "rows" and semrun.rows_equal(dr[1], pr[1]):
+                        continue
+                    if dr[0] == "fault" and pr[0] == "fault":
+                        continue
+                    ref_bad = {"event": ev, "coq": dr, "python": pr}
+                    break
+                if diffs:
+                    i, d = diffs[0]
+                    oc.violations.append(core.Violation(
+                        key="c01:fragment-rows", what=f"{be}: {d} for fragment query {src}",
+                        replay={"kind": "query", "backend": be, "query": src, "metadata": "none", "event": evs[i], "difference": d,
+                                "broken": "differential: Coq-defined execution of the implementation's program vs reference semantics"}))
+                elif not same or ref_bad or unsup:
+                    oc.correspondence_breaks.append({"backend": be, "query": src,
+                                                     "model_lines": r[1] if r[0] == "ok" else r, "emitted_lines": c.qlines,
+                                                     "model_members": r[2] if r[0] == "ok" else None, "emitted_members": members,
+                                                     "reference_mismatch": ref_bad, "unsupported": unsup})
+                else:
+                    oc.traces_validated_against_impl += 1
+                    if len(samples) < 5:
+                        samples.append({"kind": "fragment-F1", "backend": be, "query": src, "events": len(evs), "program_lines": len(c.qlines)})
         # ---------------- known-finding templates ----------------
         for be in BACKENDS:
             uni = qgen.Universe(be)
@@ -249,14 +297,15 @@ def check(tier: str, seed: int, t0: float, build: core.BuildStatus) -> int:
                         samples.append({"kind": "random", "backend": be, "query": src, "events": len(evs)})
         model.close()
     oc.distinct_nontrivial = len(distinct)
-    oc.rule = (f"fragment: {n_frag} generated fragment rows (1-3 columns: scalar expressions over Count/Sum, vector columns; bare/tuple/list/dict terminals) x (atlas, cms_aod), text of the fragment translator compared with the emitted program, "
+    oc.rule = (f"fragment F1: {n_frag} generated whole queries (optional event filter; Select(ROW) or SelectMany(coll[.Where].Select(PROW)), inside and chained styles) x (atlas, cms_aod), same comparisons; "
+               f"fragment: {n_frag} generated fragment rows (1-3 columns: scalar expressions over Count/Sum, vector columns; bare/tuple/list/dict terminals) x (atlas, cms_aod), text of the fragment translator compared with the emitted program, "
                f"Coq reference vs Python reference, {n_events} events each; known-finding templates x 3 backends; "
                f"random: {n_rand} typed queries per backend (depth 1-4; Select/SelectMany/Where/Count/Sum/Aggregate/First/Range/arithmetic/comparison/and-or-not/conditional/math functions/tuple-list-dict rows/1-D and 2-D columns) "
                f"x {n_events} events (collection sizes 0-4, value lattice with ties, zeros, negatives); non-trivial = at least 3 operators (fragment: two Counts or a Where); distinct by (backend, source)")
     oc.samples = samples or ["(no case was generated)"]
     known_keys = {k["key"] for k in core.known_findings() if k.get("property") == PID and k.get("status") == "known"}
     oc.extra = {"histogram": dict(hist), "feature_histogram": dict(feat_hist), "programs_outside_ir": unparsed,
-                "explanation": "proof: fragment F0 for all queries x events x member states; correspondence: fragment translator text == implementation text; search: differential execution for generated queries beyond the fragment",
+                "explanation": "proof: fragment F1 for all queries x event lists (jobs) x member states; correspondence: fragment translator text == implementation text; search: differential execution for generated queries beyond the fragment",
                 "model_available": model is not None}
     if not [v for v in oc.violations if v.key not in known_keys] and (ps.broken or oc.correspondence_breaks or model is None or core.build_hygiene_cache()):
         what = ps.broken or (f"correspondence of the fragment translator / IR with the implementation: {json.dumps(oc.correspondence_breaks[0])[:600]}" if oc.correspondence_breaks else
